@@ -28,7 +28,7 @@ import (
 // ---------------------------------------------------------------------------------------
 
 type M14Msg struct {
-	Route   int    `json:"route"` // 0: /r (managed, targets A and B)  1: /other (unmanaged, target A)
+	Route   int    `json:"route"`  // 0: /r (managed, targets A and B)  1: /other (unmanaged, target A)
 	Target  int    `json:"target"` // 0: A 1: B (route /other always A)
 	State   string `json:"state"`
 	RecvAgo int    `json:"recv_ago_s"`
